@@ -1,7 +1,7 @@
 (* C02 -- KNN (K>1) and join-provenance neighbor scores are exact Shapley values.  Statements only. *)
 From Coq Require Import List Arith ZArith QArith Bool.
 From DS Require Import Util.SumQ Spec.Shapley Model.ADD Spec.Count Spec.Knn Model.Bruteforce Model.ShapleyAdd
-     Proofs.BruteforceShapley Proofs.OracleProofs Proofs.KnnShapley Model.Oracle Proofs.NeighborAdd.
+     Proofs.BruteforceShapley Proofs.OracleProofs Proofs.KnnShapley Proofs.KnnSorted Model.Oracle Proofs.NeighborAdd.
 Import ListNotations.
 Local Open Scope Q_scope.
 
@@ -53,6 +53,12 @@ Theorem C02_rank_count : forall (d : nat -> Q) (P : list nat), NoDup P ->
   length (filter (fun t => Nat.eqb (nle d P t) K) P) = if Nat.leb K (length P) then 1%nat else 0%nat.
 Proof. exact rank_count. Qed.
 
+(* the game written with an explicit sort by distance (first K rows of the sorted present rows) is the same game *)
+Theorem C02_sorted_definition_agrees : forall K C rows labels dists ucols nulls m,
+  (forall d, In d dists -> length d = length rows /\ NoDup (map Qred d)) ->
+  v_knn_sorted K C rows labels dists ucols nulls m == v_knn K C rows labels dists ucols nulls m.
+Proof. exact v_knn_sorted_eq. Qed.
+
 (* non-vacuity: a three-unit hypergraph with a shared unit and a two-unit row, K = 2, meets the hypotheses, and both
    sides evaluate to the same non-trivial vector *)
 Example C02_instance : add_is_shapley_instance_statement.
@@ -63,3 +69,4 @@ Print Assumptions C02_add_point_is_shapley.
 Print Assumptions C02_add_is_shapley.
 Print Assumptions C02_rank_count.
 Print Assumptions C02_add_chain_is_shapley.
+Print Assumptions C02_sorted_definition_agrees.
